@@ -18,7 +18,7 @@ from vf.core import sh
 from props import c14 as base
 
 STRIP_KEY = "patchable-pre-entry-stripped"
-REGRESSION_VARIANTS = ("fentry-cet", "pfe-7,2", "pfe-5,2", "pfe-nopie")
+REGRESSION_VARIANTS = ("fentry-cet", "pfe-7,2", "pfe-5,2", "pfe-nopie", "pfe-lld-base", "pfe-stripped")
 NAMES = ["alpha", "alpine", "beta", "bet", "gamma_", "delta1", "tiny", "leaf", "work", "_under", "zeta9"]
 VARIANTS = {
     "pfe": (["gcc", "-O1", "-fpatchable-function-entry=5", "-fcf-protection=none"], 5),
@@ -27,6 +27,9 @@ VARIANTS = {
     "pfe-7,2": (["gcc", "-O1", "-fpatchable-function-entry=7,2", "-fcf-protection=none"], 5),
     "pfe-5,2": (["gcc", "-O1", "-fpatchable-function-entry=5,2", "-fcf-protection=none"], 5),
     "pfe-cxx": (["g++", "-O1", "-fpatchable-function-entry=5", "-fcf-protection=none"], 5),
+    "pfe-lld-base": (["gcc", "-O1", "-fpatchable-function-entry=5", "-fcf-protection=none", "-fuse-ld=lld", "-pie",
+                      "-Wl,--image-base=0x200000"], 5),
+    "pfe-stripped": (["gcc", "-O1", "-fpatchable-function-entry=5", "-fcf-protection=none", "-s"], 5),
     "pfe-nopie": (["gcc", "-O1", "-fpatchable-function-entry=5", "-fno-pie", "-no-pie", "-fcf-protection=none"], 5),
     "fentry": (["gcc", "-O1", "-pg", "-mfentry", "-mnop-mcount", "-fno-pie", "-no-pie", "-fcf-protection=none"], 3),
     "fentry-cet": (["gcc", "-O1", "-pg", "-mfentry", "-mnop-mcount", "-fno-pie", "-no-pie", "-fcf-protection=full"], 3),
@@ -426,6 +429,18 @@ def make_case(ctx, h, prog, opts, ptype, minsz, res, module="exe"):
         tramp += 16
     libnames = set(f["name"] for f in prog["lib"]["funcs"]) | {"lib_dump"} if prog.get("lib") else set()
     traced = [n for n in res["traced"] if (n in libnames) == islib]
+    if prog["variant"] == "pfe-stripped":
+        # `uftrace report` names a symbol-less function by its run-time address; libmcount matched "<offset>"
+        lows = {}
+        for e in pfe:
+            lows.setdefault(e & 0xfff, []).append(e)
+        conv = []
+        for n in traced:
+            m = re.match(r"^<([0-9a-f]+)>$", n)
+            # the recorded address of such a function is the return address of its fentry call: entry + 5
+            cand = lows.get((int(m.group(1), 16) - 5) & 0xfff, []) if m else []
+            conv.append("<%x>" % cand[0] if len(cand) == 1 else n)
+        traced = conv
     c["obs"] = {"died": died, "after": b"" if died else tT[1], "traced": traced,
                 "same_output": (not died) and tr["R"] == nat["R"] and tT[0] == wbase,
                 "rc_same": res["rc"] == prog["native_rc"],
@@ -434,6 +449,8 @@ def make_case(ctx, h, prog, opts, ptype, minsz, res, module="exe"):
                 "env": env_value(tr["Z"]),
                 "rc": res["rc"], "args": res["args"], "stderr_tail": res["stderr_tail"]}
     names = [s[3] for s in c["syms"]]
+    # locations outside every symbol get the name "<offset>" (stripped binaries): the oracle must know them too
+    names += ["<%x>" % a for a in c["targets"] if not any(s[0] <= a < s[0] + s[1] for s in c["syms"])]
     c["queries"] = [(c["lib"], so, n) for n in dict.fromkeys(names)]
     return c
 
@@ -502,6 +519,35 @@ def zclass(v):
     return ">=2^32"
 
 
+def mixed_order_optsets(rng, prog, n):
+    """option lists that MIX patterns with and without @module in every order: whether a library is looked at must
+    depend on the presence of an @module pattern, not on where it stands (first, middle, last)"""
+    libmod = os.path.splitext(prog["lib"]["file"])[0]          # e.g. libc14e2e / prog_plugin
+    libfns = [f["name"] for f in prog["lib"]["funcs"]]
+    exefns = [f["name"] for f in prog["funcs"]] + ["main"]
+    sets = []
+    shapes = ["lib-first", "lib-last", "lib-middle", "all-lib-then-U-exe", "exe-U-last"]
+    for i in range(n):
+        shape = shapes[i % len(shapes)]
+        ptype = rng.choice([2, 2, 3])
+        anyp = "." if ptype == 2 else "*"
+        lib_p = ("P", rng.choice([anyp, rng.choice(libfns), "lib_*" if ptype == 3 else "^lib_"]) + "@" + libmod)
+        exe_p = ("P", rng.choice(exefns))
+        exe_u = ("U", rng.choice(exefns))
+        if shape == "lib-first":
+            opts = [lib_p, exe_p]
+        elif shape == "lib-last":
+            opts = [exe_p, lib_p]
+        elif shape == "lib-middle":
+            opts = [exe_p, lib_p, ("P", rng.choice(exefns))]
+        elif shape == "all-lib-then-U-exe":
+            opts = [("P", anyp + "@" + libmod), ("P", anyp), exe_u]
+        else:
+            opts = [("P", anyp), lib_p, ("U", rng.choice(libfns) + "@" + libmod), exe_u]
+        sets.append((opts, ptype, None))
+    return sets
+
+
 def verdict(ctx, cases, res, witness_idx=None):
     if res is None:
         return
@@ -530,13 +576,24 @@ def run(ctx, objdir, h):
     for rd in range(rounds):
         for v in variants:
             # the variants that are regression cases of repaired defects get fewer option sets, the first one `-P .`
-            nsets = ctx.n(1, 5) if v in REGRESSION_VARIANTS else ctx.n(2, 10)
-            prog = build_program(ctx, gen_program(rng, v), "%s-%d" % (v, rd))
+            nsets = ctx.n(1, 5) if v in REGRESSION_VARIANTS else (ctx.n(1, 8) if v in ("clang", "pfe-cxx") else ctx.n(2, 10))
+            try:
+                prog = build_program(ctx, gen_program(rng, v), "%s-%d" % (v, rd))
+            except RuntimeError as e:
+                if "lld" in v:
+                    ctx.log("e2e: variant %s cannot be built here (no lld?): %s" % (v, str(e)[-100:]))
+                    continue
+                raise
             tend = prog["text_addr"] + prog["text_size"]
             if (tend + 4095) // 4096 * 4096 - 16 < tend:
                 ctx.log("e2e: generated %s program falls into the trampoline-page defect class; skipped" % v)
                 continue
             optsets = gen_optsets(rng, prog, nsets)
+            if v == "pfe-stripped":
+                # without symbols a function's size is unknown: patching treats it as "big enough" (UINT_MAX), the
+                # record-time size filter of libmcount/mcount.c as 0 - with -Z such functions are patched but not
+                # recorded.  Outside this property's statement (no size to compare); -Z is not combined with it.
+                optsets = [(o, pt, None) for o, pt, z in optsets]
             if v in REGRESSION_VARIANTS:
                 o0, pt0, z0 = optsets[0]
                 optsets[0] = ([("P", "." if pt0 == 2 else "*")] + [o for o in o0 if o[0] == "U"][:1], pt0, z0)
@@ -557,7 +614,8 @@ def run(ctx, objdir, h):
                 bad = bad or (tend + 4095) // 4096 * 4096 - 16 < tend
             if bad:
                 continue
-            for si, (opts, ptype, minsz) in enumerate(gen_optsets(rng, lprog, ctx.n(3, 10))):
+            optsets = gen_optsets(rng, lprog, ctx.n(2, 10)) + mixed_order_optsets(rng, lprog, ctx.n(3, 8))
+            for si, (opts, ptype, minsz) in enumerate(optsets):
                 res = run_case(ctx, objdir, lprog, opts, ptype, minsz, "%d" % si)
                 for module in ("exe", "lib"):
                     c = make_case(ctx, h, lprog, opts, ptype, minsz, res, module=module)
